@@ -470,7 +470,7 @@ theorem emap_nil_of_content_nil (s : PQ T β) (hI : Inv wf content s) (h : conte
     rw [h] at this
     simp at this
 
-theorem peek_sim (L : Lawful B wf content) (s : PQ T β) (hI : Inv wf content s) (d : Bool) :
+theorem peek_sim (L : Lawful B wf content) (s : PQ T β) (hI : Inv wf content s) (d : Option Nat) :
     Inv wf content (s.peek B d).1 ∧ absSpec (s.peek B d).1 = absSpec s ∧
     (s.peek B d).2 = (Spec.step (absSpec s) (.peek d)).2 := by
   obtain ⟨hIc, hdone⟩ := cull_spec L s.emap s.counter (B.size s.pq) s.pq hI
@@ -495,7 +495,7 @@ theorem peek_sim (L : Lawful B wf content) (s : PQ T β) (hI : Inv wf content s)
       rw [habs] at hb
       simp [Spec.step, hb]
 
-theorem pop_sim (L : Lawful B wf content) (s : PQ T β) (hI : Inv wf content s) (d : Bool) :
+theorem pop_sim (L : Lawful B wf content) (s : PQ T β) (hI : Inv wf content s) (d : Option Nat) :
     Inv wf content (s.pop B d).1 ∧ absSpec (s.pop B d).1 = (Spec.step (absSpec s) (.pop d)).1 ∧
     (s.pop B d).2 = (Spec.step (absSpec s) (.pop d)).2 := by
   obtain ⟨hIc, hdone⟩ := cull_spec L s.emap s.counter (B.size s.pq) s.pq hI
@@ -677,7 +677,7 @@ theorem not_live_stays (s : Spec T) (t : T) (hs : t ∉ s.map Prod.fst) (ops : L
       | pop d =>
         simp only [Spec.step]
         cases hb : best s with
-        | none => exact ⟨hs, by simp [emptyOut]; split <;> simp⟩
+        | none => exact ⟨hs, by cases d <;> simp [emptyOut]⟩
         | some x =>
           refine ⟨hfilter x.1, ?_⟩
           intro h
@@ -686,7 +686,7 @@ theorem not_live_stays (s : Spec T) (t : T) (hs : t ∉ s.map Prod.fst) (ops : L
       | peek d =>
         simp only [Spec.step]
         cases hb : best s with
-        | none => exact ⟨hs, by simp [emptyOut]; split <;> simp⟩
+        | none => exact ⟨hs, by cases d <;> simp [emptyOut]⟩
         | some x =>
           refine ⟨hs, ?_⟩
           intro h
@@ -825,7 +825,7 @@ theorem sortDesc_filter (p : T × Int → Bool) (s : Spec T) :
       exact ih
 
 /-- popping until empty returns the live tasks in `sortDesc` order -/
-theorem spec_drain (d : Bool) (n : Nat) (s : Spec T) (hn : (s.map Prod.fst).Nodup) (hlen : s.length = n) :
+theorem spec_drain (d : Option Nat) (n : Nat) (s : Spec T) (hn : (s.map Prod.fst).Nodup) (hlen : s.length = n) :
     (Spec.runFrom s (List.replicate n (.pop d))).2 = (sortDesc s).map (fun x => Out.task x.1) ∧
     (Spec.runFrom s (List.replicate n (.pop d))).1 = [] := by
   induction n generalizing s with
